@@ -1293,7 +1293,15 @@ impl Evaluator {
             // ------------------------------------------------ time
             "format_time" => match (get!(0), get!(1)) {
                 (Some(t), Some(RVal::Str(fmt))) if t.is_num() => {
-                    let RVal::Int(secs) = t else { return U };
+                    // a non-negative number with a fraction: the whole seconds count (no format of the
+                    // pool prints the fraction); negative fractions are left open (floor or truncation)
+                    let secs: i128 = match &t {
+                        RVal::Int(s) => *s,
+                        RVal::Float(f) if *f >= 0.0 && *f < 2.5e11 => f.floor() as i128,
+                        _ => return U,
+                    };
+                    // %+ prints the fraction when there is one
+                    let fractional = matches!(&t, RVal::Float(f) if f.fract() != 0.0);
                     // years 0001..9999 (seconds count from 1970-01-01T00:00:00Z, negative before)
                     if !(-62_135_596_800..=253_402_300_799).contains(&secs) {
                         return U;
@@ -1322,6 +1330,7 @@ impl Evaluator {
                                 Some('z') => out.push_str("+00:00"),
                                 _ => return U,
                             },
+                            Some('+') if fractional => return U,
                             Some('+') => out.push_str(&format!("{:04}-{:02}-{:02}T{:02}:{:02}:{:02}+00:00", y, m, d, rem / 3600, rem % 3600 / 60, rem % 60)),
                             Some('s') => out.push_str(&secs.to_string()),
                             Some('T') => out.push_str(&format!("{:02}:{:02}:{:02}", rem / 3600, rem % 3600 / 60, rem % 60)),
